@@ -7,7 +7,7 @@
    pool-wide low-priority queue served as in local_priority_queue_scheduler); the runtime_state constants and the "refusal returns" facts are
    regenerated from the source (Gen/GenRuntimeState.v). *)
 From Coq Require Import List NArith Bool Arith Permutation Lia.
-From Pika Require Import Base.Conc Gen.GenRuntimeState Model.SuspendResume Proofs.SuspendResumeProofs Proofs.SuspendResumeValidated.
+From Pika Require Import Base.Conc Gen.GenRuntimeState Model.SuspendResume Proofs.SuspendResumeProofs Proofs.SuspendResumeValidated Proofs.SuspendResumeStutter.
 Import ListNotations.
 
 (* a task is executed at most once, whatever suspend/resume calls are interleaved with its life *)
@@ -212,3 +212,12 @@ Proof.
   cbv zeta. repeat split; try (vm_compute; reflexivity).
   intros t H. do 3 (destruct t as [|t]; [vm_compute; reflexivity|]). lia.
 Qed.
+
+(* ---- what [enabled] (hence [stuck]) means ----
+   a thread that is not enabled only stutters: without a spurious wake-up / lock contention in that step (fst o = false) its step
+   leaves the shared state unchanged ([geq]: equal, [waiting] up to extensionality) and it is still not enabled.  So in a stuck
+   state no schedule of such steps changes anything: "has not returned / has not run" there means "never will". *)
+Theorem C19_disabled_only_stutters : forall c o t g l, fst o = false -> enabled c t g l = false ->
+  geq g (fst (sr_tstep c o t g l)) /\ enabled c t (fst (sr_tstep c o t g l)) (snd (sr_tstep c o t g l)) = false.
+Proof. exact disabled_stutter. Qed.
+Print Assumptions C19_disabled_only_stutters.
